@@ -9,4 +9,5 @@ Definition read_value_tbl (tbl : list (N * N)) (w : str) : rval := read_value (c
 
 Extraction "../ocaml/gen/gbnf.ml" extract_anchor gbnf_parse_g wf_text_code_g defs grammar_refs
   sanitize_rule_name escape_literal compile_regex compile_chain compile_schema parse_contract_spec
-  schema_clauses safe_schema gbnf_literal field_value_alts enum_alts read_value_tbl accepts.
+  schema_clauses safe_schema gbnf_literal field_value_alts enum_alts read_value_tbl accepts
+  one_line envelope_doc_name doc_schema_name meta_schema_name.
